@@ -29,6 +29,7 @@ class VFS:
         self.interrupted = False
         self.ops = []  # log of operations that reached the disk
         self.dead = False
+        self._fds = {}
 
     def _op(self, name, *args):
         if self.dead:
@@ -53,6 +54,28 @@ class VFS:
             return _File(self, path)
         raise NotImplementedError(mode)
 
+    # ---- low-level descriptors (os.open / os.fdopen / os.fsync)
+    def os_open(self, path, flags, mode=0o777):
+        import os as _os
+
+        if path not in self.files:
+            if not flags & _os.O_CREAT:
+                raise FileNotFoundError(path)
+            self._op("create", path)
+            self.files[path] = b""
+        elif flags & _os.O_TRUNC:
+            self._op("create", path)
+            self.files[path] = b""
+        else:
+            self._op("open-overwrite", path)  # existing content stays; writes replace it from offset 0 (or append with O_APPEND)
+        fd = 1000 + len(self._fds)
+        self._fds[fd] = (path, bool(flags & _os.O_APPEND))
+        return fd
+
+    def os_fdopen(self, fd, mode="r", *a, **k):
+        path, append = self._fds[fd]
+        return _File(self, path, offset=None if append else 0)
+
     def rename(self, src, dst):
         if src not in self.files:
             raise FileNotFoundError(src)
@@ -70,8 +93,17 @@ class VFS:
 
 
 class _File:
-    def __init__(self, vfs, path):
+    def __init__(self, vfs, path, offset=None):
         self.vfs, self.path, self.buf, self.closed = vfs, path, b"", False
+        self.offset = offset  # None: append at the end; int: overwrite existing bytes from there (file opened without truncation)
+
+    def _put(self, chunk):
+        cur = self.vfs.files.get(self.path, b"")
+        if self.offset is None:
+            self.vfs.files[self.path] = cur + chunk
+        else:
+            self.vfs.files[self.path] = cur[: self.offset] + chunk + cur[self.offset + len(chunk):]
+            self.offset += len(chunk)
 
     def write(self, s):
         if self.vfs.dead:
@@ -81,14 +113,14 @@ class _File:
         while len(self.buf) >= self.vfs.bufsize:
             chunk, self.buf = self.buf[: self.vfs.bufsize], self.buf[self.vfs.bufsize:]
             self.vfs._op("write", self.path, len(chunk))
-            self.vfs.files[self.path] = self.vfs.files.get(self.path, b"") + chunk
+            self._put(chunk)
         return len(s)
 
     def flush(self):
         if self.buf:
             chunk, self.buf = self.buf, b""
             self.vfs._op("write", self.path, len(chunk))
-            self.vfs.files[self.path] = self.vfs.files.get(self.path, b"") + chunk
+            self._put(chunk)
 
     def close(self):
         if not self.closed:
@@ -139,6 +171,21 @@ class _OS:
 
     def unlink(self, a):
         return self._vfs.remove(a)
+
+    def open(self, path, flags, mode=0o777, *a, **k):
+        return self._vfs.os_open(path, flags, mode)
+
+    def fdopen(self, fd, *a, **k):
+        return self._vfs.os_fdopen(fd, *a, **k)
+
+    def fsync(self, fd):
+        return None  # what reached the virtual disk is durable; data still in a user-space buffer is not touched by fsync
+
+    def fdatasync(self, fd):
+        return None
+
+    def close(self, fd):
+        self._vfs._fds.pop(fd, None)
 
     def __getattr__(self, name):
         return getattr(self._real, name)
